@@ -761,6 +761,10 @@ def run(ctx, rep):
     from .c03 import t11, t13
     t11(F, rep)
     t13(F, rep)
+    # W12: the writer is total on what the reader produced: no new error result on the path that re-emits the tokens (the
+    # count shared with C02/M11 and C08/P11 covers DeflateWriter and the header writer)
+    from . import c04 as _c04
+    _c04.rejections_rule(ctx, rep, "W12")
     # W8: what the parser captures as padding are exactly the bits left in the current byte, taken with the bit reader's own
     # read primitive (same rule as C03/T5 padding-count; a capture computed by hand from the reader's fields is not accepted)
     from . import c03
